@@ -39,10 +39,7 @@ def parseVal (s : String) : Option Val :=
     | _ => none
   | _ => none
 
-def fieldName : Field → String
-  | .id => "id" | .addressIn => "address_in" | .addressOut => "address_out"
-  | .addressNat => "address_nat" | .snmpEnabled => "snmp_enabled" | .natEnabled => "nat_enabled"
-  | .dmrId => "dmr_id" | .callsign => "callsign" | .serial => "serial"
+def fieldName (f : Field) : String := f.name
 
 def parseField (s : String) : Option Field := Field.all.find? (fun f => fieldName f == s)
 
@@ -112,7 +109,8 @@ def parseOp (op : String) (args : List String) : Option Op :=
     pure (.patch r p)
   | _, _ => none
 
-/-- stateful step of the C20 driver: answer = result of the call and `len(storage)` after it -/
+/-- stateful step of the C20 driver: answer = result of the call, `len(storage)` after it, and
+whether the preconditions P1/P2 of the theorems hold for this operation in the state it met -/
 def storageStep (s : Store) (op : String) (args : List String) : Store × String :=
   match op, args with
   | "reset", [] => (init, "ok")
@@ -122,6 +120,6 @@ def storageStep (s : Store) (op : String) (args : List String) : Store × String
     | none => (s, "ERR bad-op " ++ op)
     | some o =>
       let r := step s o
-      (r.1, resToString r.2 ++ " " ++ toString r.1.len)
+      (r.1, resToString r.2 ++ " " ++ toString r.1.len ++ (if okOp s o then " pre-ok" else " pre-violated"))
 
 end Dmr.Driver.Storage
